@@ -222,7 +222,19 @@ pub fn run_batch<S: Scenario>(s: &S, cfg: &BatchCfg) -> BatchOut {
                     let mut rng = Rng::new(run_seed);
                     let case = s.generate(&mut rng, cfg.thorough);
                     let dec = Decisions::generate(mix(run_seed, 0xdec1));
-                    let r = s.execute(&case, dec);
+                    // panics of the code under test are caught inside the scenarios; one that
+                    // arrives here is a bug of the harness itself and must not pass for a crash
+                    // of the code under test
+                    let r = match std::panic::catch_unwind(std::panic::AssertUnwindSafe(|| s.execute(&case, dec))) {
+                        Ok(r) => r,
+                        Err(p) => {
+                            let msg = crate::panics::take_last().unwrap_or_else(|| crate::panics::payload_to_string(p.as_ref()));
+                            let mut g = agg.lock().unwrap();
+                            g.harness_errors.push(format!("run {i} (seed {run_seed}): the harness itself panicked: {msg}"));
+                            stop.store(true, Ordering::Relaxed);
+                            break;
+                        }
+                    };
                     local_eval += 1;
                     local.merge(&r.stats);
                     let ch = case_hash(&case);
